@@ -26,8 +26,8 @@ sink spells a null / missing BY value, so group counts do not add up to COUNT.
 (i) a PER bucket that starts before 1970 keeps its identity through the coordinator: the shards emit the bucket start as a signed integer; AggregateStreamMerger::parse_aggregate_row reads a negative
 Int64 / Timestamp bucket through a bit-preserving cast and does not send it through scalar_to_u64 (whose None for a negative value is the 'no bucket' key: all pre-1970 buckets would merge into null).
 """
-FLOOR = 17
-REQUIRED = ["C09.a1", "C09.a2", "C09.a3", "C09.b", "C09.c", "C09.d", "C09.e", "C09.f", "C09.g", "C09.h", "C09.i", "C09.j", "C09.k", "C09.l", "C09.m", "C09.n", "C09/C07.h"]
+FLOOR = 19
+REQUIRED = ["C09.a1", "C09.a2", "C09.a3", "C09.b", "C09.c", "C09.d", "C09.e", "C09.f", "C09.g", "C09.h", "C09.i", "C09.j", "C09.k", "C09.l", "C09.m", "C09.n", "C09.o", "C09.p", "C09/C07.h"]
 
 
 def run(ctx):
@@ -492,3 +492,48 @@ def run(ctx):
         inst.sites.append("production callers of AggregateSink::with_group_limit with a bound: %d" % n)
         return bad
     ctx.run("C09.n", "K4 EFFECT", "AggregateSink::with_group_limit callers", "a flow's aggregate sink accumulates every group it meets", n_)
+
+    def o_(inst):
+        """PLOT a VS b runs one complete query per side; what reaches the comparison merger are FINAL aggregate tables (one column per
+        metric). It must not read them with the layout of the shards' partial aggregates (avg_<f>_sum / _count, count_unique_<f>_values):
+        the plan handed to AggregateStreamMerger::parse_aggregate_row there has no metric ops (only the group key is parsed that way)."""
+        bad = []
+        b = F.fn("ComparisonStreamMerger::parse_batch_to_rows")
+        pr = [c for c in b.calls if not c.cleanup and c.nname.endswith("AggregateStreamMerger::parse_aggregate_row")]
+        inst.sites = [sp(b, c.bb) for c in pr]
+        for c in pr:
+            # the plan argument: an AggregatePlan aggregate built here with an empty ops vector
+            ok = False
+            for a_ in c.args:
+                for l in b.origins(a_):
+                    if l[0] == "agg" and l[1].endswith("AggregatePlan"):
+                        for (bb, jx, v, dst) in b.aggregates("AggregatePlan"):
+                            if bb == l[2]:
+                                o = dict(zip(v.get("fields", []), v["o"])).get("ops")
+                                if o is not None and any(x[0] == "call" and norm_path(x[1]).endswith("Vec::new") for x in b.origins(o)):
+                                    ok = True
+            if not ok:
+                bad.append(("final-table-read-as-partials", "ComparisonStreamMerger::parse_batch_to_rows parses the finished table of a comparison side with the partial-aggregate layout of the full plan: avg(..) / unique(..) comparisons fail with 500 'missing avg_<f>_sum column'", sp(b, c.bb)))
+        return bad
+    ctx.run("C09.o", "K11 SIB", "ComparisonStreamMerger::parse_batch_to_rows", "a comparison side is read as the final table it is", o_)
+
+    def p_(inst):
+        """TOTAL / AVG / MIN / MAX over a float field: the aggregate operators accumulate i64 (AggState, the partial schema, AggOutput::Sum)
+        and read a column through get_i64_at; a float column reaches them as text, so a fractional value parses to None and is skipped."""
+        bad = []
+        hits = []
+        for k in sorted(F.keys()):
+            if k.startswith("bin:") or not re.search(r"read::aggregate::ops::", k):
+                continue
+            b = F.fn_exact(k)
+            if not re.search(r"(Sum|Avg)\w*::update", k):
+                continue
+            gi = [c for c in b.calls if not c.cleanup and c.nname.endswith("get_i64_at")]
+            gf = [c for c in b.calls if not c.cleanup and c.nname.endswith("get_f64_at")]
+            if gi and not gf:
+                hits.append((b, gi[0]))
+        inst.sites.append("Sum / Avg update functions that read the column through the i64 view only: %d" % len(hits))
+        if hits:
+            bad.append(("float-metric-through-i64-view", "the Sum / Avg aggregate operators read their column through get_i64_at only: fractional values of a float field are skipped (TOTAL of 9.5, 0, 19.25, 99 is 99)", sp(hits[0][0], hits[0][1].bb)))
+        return bad
+    ctx.run("C09.p", "K10 READS", "read::aggregate::ops (Sum / Avg)", "numeric aggregates see fractional values", p_)
